@@ -457,6 +457,11 @@ Qed.
 
 End Evals.
 
+Ltac leaf_inv H :=
+  match type of H with rw_evals ?e ?t ?s ?l => apply (proj1 (evals_leaf e t s _ l eq_refl)) in H end.
+Ltac leaf_intro :=
+  match goal with |- rw_evals ?e ?t ?s ?l => apply (proj2 (evals_leaf e t s _ l eq_refl)) end.
+
 (* ------------------------------------------------------------------------------------------ *)
 (* 3. the relations: order structure, strong implies denotational                               *)
 (* ------------------------------------------------------------------------------------------ *)
@@ -1278,3 +1283,427 @@ Theorem auto_atomic_then_endz k o o1 c m n rest :
 Proof. auto_atomic_by succ_endz_fails. Qed.
 
 End AutoAtomic.
+
+(* ------------------------------------------------------------------------------------------ *)
+(* 8. full-list congruences (≈ is usable inside concatenations, alternations, groups, ...)       *)
+(* ------------------------------------------------------------------------------------------ *)
+
+Section Congr2.
+Variable e : env.
+Notation evals := (rw_evals e).
+
+Lemma evals_concat_opts o o' l s z : evals (NConcat o l) s z <-> evals (NConcat o' l) s z.
+Proof. split; intros [[|f] H]; try discriminate; exists (S f); rewrite sem_S in *; exact H. Qed.
+
+Lemma evals_alt_opts o o' l s z : evals (NAlternate o l) s z <-> evals (NAlternate o' l) s z.
+Proof. split; intros [[|f] H]; try discriminate; exists (S f); rewrite sem_S in *; exact H. Qed.
+
+Lemma evals_alt_map {A} o (g : A -> node) bs s z :
+  evals (NAlternate o (map g bs)) s z <->
+  exists zs, Forall2 (fun a za => evals (g a) s za) bs zs /\ z = concat zs.
+Proof.
+  revert z. induction bs as [|b bs IH]; intros z; cbn [map].
+  - rewrite evals_alt_nil. split.
+    + intros ->. exists []. split; [constructor | reflexivity].
+    + intros (zs & HF & ->). inversion HF. reflexivity.
+  - rewrite evals_alt_cons. split.
+    + intros (lx & ly & Hx & Hy & ->). apply IH in Hy as (zs & HF & ->).
+      exists (lx :: zs). split; [constructor; assumption | reflexivity].
+    + intros (zs & HF & ->). inversion HF as [|b' z0 bs' zs' H0 HF']; subst.
+      exists z0, (concat zs'). split; [exact H0|]. split; [apply IH; eauto | reflexivity].
+Qed.
+
+Lemma evals_alt_all o l s z :
+  evals (NAlternate o l) s z <-> exists zs, Forall2 (fun t za => evals t s za) l zs /\ z = concat zs.
+Proof. rewrite <- (map_id l) at 1. apply evals_alt_map. Qed.
+
+Lemma alt_congr o l l' : Forall2 (rw_refines e) l l' -> rw_refines e (NAlternate o l) (NAlternate o l').
+Proof.
+  intros H s z Hz. apply evals_alt_all in Hz as (zs & HF & ->). apply evals_alt_all. exists zs. split; [|reflexivity].
+  clear -H HF. revert zs HF. induction H as [|t t' l l' Ht _ IH]; intros zs HF; inversion HF; subst; constructor; auto.
+Qed.
+
+Lemma alt_prefix_congr o pre l l' :
+  rw_refines e (NAlternate o l) (NAlternate o l') -> rw_refines e (NAlternate o (pre ++ l)) (NAlternate o (pre ++ l')).
+Proof.
+  intros H. induction pre as [|x pre IH]; [exact H|]. intros s z Hz. cbn [app] in *.
+  apply evals_alt_cons in Hz as (lx & ly & Hx & Hy & ->). apply evals_alt_cons. exists lx, ly. auto.
+Qed.
+
+Lemma concat_prefix_congr o pre l l' :
+  rw_refines e (NConcat o l) (NConcat o l') -> rw_refines e (NConcat o (pre ++ l)) (NConcat o (pre ++ l')).
+Proof.
+  intros H. induction pre as [|x pre IH]; [exact H|]. intros s z Hz. cbn [app] in *.
+  apply evals_concat_cons in Hz as (lx & zs & Hx & HF & ->). apply evals_concat_cons. exists lx, zs.
+  split; [exact Hx|]. split; [|reflexivity]. eapply Forall2_impl'; [|exact HF]. intros a za Ha. apply IH, Ha.
+Qed.
+
+Lemma concat_head_congr o x x' l : rw_refines e x x' -> rw_refines e (NConcat o (x :: l)) (NConcat o (x' :: l)).
+Proof.
+  intros H s z Hz. apply evals_concat_cons in Hz as (lx & zs & Hx & HF & ->). apply evals_concat_cons.
+  exists lx, zs. auto.
+Qed.
+
+Lemma concat_congr o l l' : Forall2 (rw_refines e) l l' -> rw_refines e (NConcat o l) (NConcat o l').
+Proof.
+  induction 1 as [|x x' l l' Hx _ IH]; [apply rw_refines_refl|].
+  eapply rw_refines_trans; [apply concat_head_congr, Hx|].
+  apply (concat_prefix_congr o [x']), IH.
+Qed.
+
+Lemma capture_congr o g u t t' : rw_refines e t t' -> rw_refines e (NCapture o g u t) (NCapture o g u t').
+Proof.
+  intros H s z Hz. apply evals_capture in Hz as (l & Hl & ->). apply evals_capture. exists l. auto.
+Qed.
+
+Lemma group_congr t t' : rw_refines e t t' -> rw_refines e (NGroup t) (NGroup t').
+Proof. intros H s z Hz. apply (proj1 (evals_group _ _ _ _)) in Hz. apply (proj2 (evals_group _ _ _ _)). auto. Qed.
+
+Lemma concat_singleton o t : rw_eq e (NConcat o [t]) t.
+Proof.
+  assert (Hnil : forall l zs, Forall2 (fun a za => evals (NConcat o []) a za) l zs -> concat zs = l).
+  { induction 1 as [|a za l0 zs0 Ha _ IH0]; [reflexivity|]. apply evals_concat_nil in Ha. subst. simpl. congruence. }
+  split; intros s z Hz.
+  - apply evals_concat_cons in Hz as (lx & zs & Hx & HF & ->). rewrite (Hnil _ _ HF). exact Hx.
+  - apply evals_concat_cons. exists z, (map (fun a => [a]) z). split; [exact Hz|]. split.
+    + clear. induction z; constructor; [apply evals_concat_nil; reflexivity | assumption].
+    + clear. induction z; simpl; congruence.
+Qed.
+
+End Congr2.
+
+(* ------------------------------------------------------------------------------------------ *)
+(* 9. R5 — alternations in atomic position (reduceAtomic, tree.go:605-700)                       *)
+(* ------------------------------------------------------------------------------------------ *)
+
+Section AtomicAlt.
+Variable e : env.
+Notation evals := (rw_evals e).
+
+Lemma evals_empty s z : evals NEmpty s z <-> z = [s].
+Proof. apply evals_leaf. reflexivity. Qed.
+
+(* branches after an Empty branch are never the first result *)
+Theorem trim_after_empty o pre post :
+  rw_hrefines e (NAlternate o (pre ++ NEmpty :: post)) (NAlternate o (pre ++ [NEmpty])).
+Proof.
+  induction pre as [|x pre IH]; intros s z Hz; cbn [app] in *.
+  - apply evals_alt_cons in Hz as (lx & ly & Hx & _ & ->). apply evals_empty in Hx. subst lx.
+    exists [s]. split; [|reflexivity]. apply evals_alt_cons. exists [s], [].
+    split; [apply evals_empty; reflexivity|]. split; [apply evals_alt_nil; reflexivity | reflexivity].
+  - apply evals_alt_cons in Hz as (lx & ly & Hx & Hy & ->). apply IH in Hy as (ly' & Hy' & E).
+    exists (lx ++ ly'). split; [apply evals_alt_cons; eauto|]. apply hd_list_app_congr; [reflexivity | exact E].
+Qed.
+
+(* an alternation whose FIRST branch is Empty is Empty (tree.go:616-618) *)
+Theorem trim_first_empty o post : rw_hrefines e (NAlternate o (NEmpty :: post)) NEmpty.
+Proof.
+  intros s z Hz. apply evals_alt_cons in Hz as (lx & ly & Hx & _ & ->). apply evals_empty in Hx. subst lx.
+  exists [s]. split; [apply evals_empty; reflexivity | reflexivity].
+Qed.
+
+(* the converse direction needs the dropped branches to evaluate at all (the model's fuel could run
+   out inside a branch the rewritten tree no longer has) *)
+Theorem trim_after_empty_heq o pre post :
+  (forall s, exists l, evals (NAlternate o post) s l) ->
+  rw_heq e (NAlternate o (pre ++ NEmpty :: post)) (NAlternate o (pre ++ [NEmpty])).
+Proof.
+  intros Hterm. split; [apply trim_after_empty|].
+  induction pre as [|x pre IH]; intros s z Hz; cbn [app] in *.
+  - apply evals_alt_cons in Hz as (lx & ly & Hx & Hy & ->). apply evals_empty in Hx. subst lx.
+    destruct (Hterm s) as (lp & Hp). exists ([s] ++ lp). split; [|reflexivity].
+    apply evals_alt_cons. exists [s], lp. split; [apply evals_empty; reflexivity | auto].
+  - apply evals_alt_cons in Hz as (lx & ly & Hx & Hy & ->). apply IH in Hy as (ly' & Hy' & E).
+    exists (lx ++ ly'). split; [apply evals_alt_cons; eauto|]. apply hd_list_app_congr; [reflexivity | exact E].
+Qed.
+
+(* two branches that never both succeed from the same state *)
+Definition branches_exclusive (a b : node) : Prop :=
+  forall s la lb, evals a s la -> evals b s lb -> la = [] \/ lb = [].
+
+Lemma swap_exclusive_refines o a b post : branches_exclusive a b ->
+  rw_refines e (NAlternate o (a :: b :: post)) (NAlternate o (b :: a :: post)).
+Proof.
+  intros Hex s z Hz. apply evals_alt_cons in Hz as (la & l1 & Ha & H1 & ->).
+  apply evals_alt_cons in H1 as (lb & lp & Hb & Hp & ->).
+  assert (E : la ++ lb ++ lp = lb ++ la ++ lp).
+  { destruct (Hex _ _ _ Ha Hb) as [-> | ->]; simpl; reflexivity. }
+  rewrite E. apply evals_alt_cons. exists lb, (la ++ lp). split; [exact Hb|]. split; [|reflexivity].
+  apply evals_alt_cons. eauto.
+Qed.
+
+(* swapping two adjacent exclusive branches changes NOTHING (the full result list is the same), so in
+   particular it is sound in atomic position, where the code does it *)
+Theorem reorder_exclusive o pre a b post : branches_exclusive a b ->
+  rw_eq e (NAlternate o (pre ++ a :: b :: post)) (NAlternate o (pre ++ b :: a :: post)).
+Proof.
+  intros Hex. split; apply alt_prefix_congr, swap_exclusive_refines; [exact Hex|].
+  intros s la lb Ha Hb. destruct (Hex _ _ _ Hb Ha); auto.
+Qed.
+
+(* first-character tests (Model/Rewrite.branch_first_test = findBranchOneOrMultiStart generalised) *)
+Lemma leaf_first_test_sound t T s l : leaf_first_test e t = Some T -> evals t s l -> l <> [] ->
+  (pos s <? tlen e) = true /\ T (char_at e (pos s)) = true.
+Proof.
+  intros HT Hl Hne. destruct t; cbn [leaf_first_test] in HT; try discriminate.
+  - destruct (is_rtl o) eqn:Eo; [discriminate|]. inversion HT; subst T.
+    leaf_inv Hl. subst l. unfold avail, next_char in Hne. rewrite Eo in Hne.
+    destruct ((0 <? tlen e - pos s) && char_test e k c (char_at e (pos s))) eqn:E; [|contradiction].
+    apply andb_true_iff in E as [E1 E2]. split; [lia | exact E2].
+  - destruct s0 as [|c0 str]; [discriminate|]. destruct (is_rtl o) eqn:Eo; [discriminate|]. inversion HT; subst T.
+    leaf_inv Hl. subst l. unfold sem_multi, avail in Hne. cbv zeta in Hne. rewrite Eo in Hne.
+    destruct (tlen e - pos s <? zlen (c0 :: str)) eqn:E1; [contradiction|].
+    cbn [str_match_at] in Hne.
+    destruct (c0 =? (if is_ci o then lower e (char_at e (pos s)) else char_at e (pos s))) eqn:E2; [|contradiction].
+    split; [|reflexivity]. unfold zlen in E1. cbn [length] in E1. lia.
+Qed.
+
+Lemma branch_first_test_sound t T s l : branch_first_test e t = Some T -> evals t s l -> l <> [] ->
+  (pos s <? tlen e) = true /\ T (char_at e (pos s)) = true.
+Proof.
+  intros HT Hl Hne. destruct t as [ | | | | | | | |oc lc| | | | | | | | | ]; cbn [branch_first_test] in HT; try (eapply leaf_first_test_sound; eassumption).
+  destruct lc as [|x lc]; [discriminate|].
+  apply evals_concat_cons in Hl as (lx & zs & Hx & HF & ->).
+  eapply leaf_first_test_sound; [exact HT | exact Hx|]. intros ->. inversion HF; subst. apply Hne. reflexivity.
+Qed.
+
+Lemma first_tests_exclusive a b Ta Tb :
+  branch_first_test e a = Some Ta -> branch_first_test e b = Some Tb ->
+  (forall x, Ta x = true -> Tb x = false) -> branches_exclusive a b.
+Proof.
+  intros Ha Hb Hdis s la lb Hla Hlb.
+  destruct la as [|a0 la]; [left; reflexivity|]. destruct lb as [|b0 lb]; [right; reflexivity|]. exfalso.
+  destruct (branch_first_test_sound _ _ _ _ Ha Hla ltac:(discriminate)) as [_ H1].
+  destruct (branch_first_test_sound _ _ _ _ Hb Hlb ltac:(discriminate)) as [_ H2].
+  rewrite (Hdis _ H1) in H2. discriminate.
+Qed.
+
+(* R5 reorder: adjacent branches whose first characters can never both match may be swapped *)
+Theorem reorder_disjoint o pre a b post Ta Tb :
+  branch_first_test e a = Some Ta -> branch_first_test e b = Some Tb ->
+  (forall x, Ta x = true -> Tb x = false) ->
+  rw_eq e (NAlternate o (pre ++ a :: b :: post)) (NAlternate o (pre ++ b :: a :: post)).
+Proof. intros Ha Hb Hdis. apply reorder_exclusive. eapply first_tests_exclusive; eassumption. Qed.
+
+(* as the code decides it: One / Multi-led branches with DIFFERENT first runes (FirstCharOfOneOrMulti),
+   left-to-right, case-sensitive *)
+Theorem reorder_first_char o pre a b post oa ca ob cb :
+  branch_first_char a = Some (oa, ca) -> branch_first_char b = Some (ob, cb) ->
+  is_rtl oa = false -> is_rtl ob = false -> is_ci oa = false -> is_ci ob = false -> ca <> cb ->
+  rw_eq e (NAlternate o (pre ++ a :: b :: post)) (NAlternate o (pre ++ b :: a :: post)).
+Proof.
+  intros Ha Hb Ra Rb Ca Cb Hne.
+  assert (Hleaf : forall t o0 c0, leaf_first_char t = Some (o0, c0) -> is_rtl o0 = false -> is_ci o0 = false ->
+                    exists T, leaf_first_test e t = Some T /\ forall x, T x = true <-> x = c0).
+  { intros t o0 c0 Ht Hr Hc. destruct t; cbn [leaf_first_char] in Ht; try discriminate.
+    - destruct k; try discriminate. inversion Ht; subst. cbn [leaf_first_test]. rewrite Hr.
+      eexists. split; [reflexivity|]. intros x. cbn [char_test]. lia.
+    - destruct s as [|c1 str]; [discriminate|]. inversion Ht; subst. cbn [leaf_first_test]. rewrite Hr, Hc.
+      eexists. split; [reflexivity|]. intros x. cbv beta. lia. }
+  assert (Hbr : forall t o0 c0, branch_first_char t = Some (o0, c0) -> is_rtl o0 = false -> is_ci o0 = false ->
+                    exists T, branch_first_test e t = Some T /\ forall x, T x = true <-> x = c0).
+  { intros t o0 c0 Ht Hr Hc. destruct t as [ | | | | | | | |oc lc| | | | | | | | | ]; cbn [branch_first_char] in Ht; cbn [branch_first_test]; try (apply (Hleaf _ _ _ Ht Hr Hc)).
+    destruct lc as [|x lc]; [discriminate|]. apply (Hleaf _ _ _ Ht Hr Hc). }
+  destruct (Hbr _ _ _ Ha Ra Ca) as (Ta & HTa & Ea). destruct (Hbr _ _ _ Hb Rb Cb) as (Tb & HTb & Eb).
+  apply (reorder_disjoint o pre a b post Ta Tb HTa HTb).
+  intros x Hx. apply Ea in Hx. destruct (Tb x) eqn:E; [|reflexivity]. apply Eb in E. congruence.
+Qed.
+
+End AtomicAlt.
+
+(* ------------------------------------------------------------------------------------------ *)
+(* 10. R6 — factoring a common prefix out of alternation branches                                *)
+(*     (extractCommonPrefixText / extractCommonPrefixOneNotoneSet, tree.go:1066-1262)            *)
+(* ------------------------------------------------------------------------------------------ *)
+
+Section Prefix.
+Variable e : env.
+Notation evals := (rw_evals e).
+
+(* at most one result from any state *)
+Definition single_result (p : node) : Prop := forall s l, evals p s l -> (length l <= 1)%nat.
+
+Lemma evals_concat_after_single o p a s s1 z : evals p s [s1] ->
+  (evals (NConcat o (p :: a)) s z <-> evals (NConcat o a) s1 z).
+Proof.
+  intros Hp. rewrite evals_concat_cons. split.
+  - intros (lx & zs & Hx & HF & ->). rewrite (rw_evals_det e _ _ _ _ Hx Hp) in HF.
+    inversion HF as [|a0 z0 l0 zs0 H0 HF0]; subst. inversion HF0; subst. cbn [concat]. rewrite app_nil_r. exact H0.
+  - intros H. exists [s1], [z]. split; [exact Hp|]. split; [constructor; [exact H | constructor]|].
+    cbn [concat]. rewrite app_nil_r. reflexivity.
+Qed.
+
+Lemma evals_concat_after_none o p a s z : evals p s [] ->
+  (evals (NConcat o (p :: a)) s z <-> z = []).
+Proof.
+  intros Hp. rewrite evals_concat_cons. split.
+  - intros (lx & zs & Hx & HF & ->). rewrite (rw_evals_det e _ _ _ _ Hx Hp) in HF. inversion HF. reflexivity.
+  - intros ->. exists [], []. split; [exact Hp|]. split; [constructor | reflexivity].
+Qed.
+
+Lemma concat_all_nil' {A} (zs : list (list A)) : Forall (fun z => z = []) zs -> concat zs = [].
+Proof. induction 1; simpl; [reflexivity|]. subst. assumption. Qed.
+
+(* R6, n branches: Alt[p·a1, ..., p·an] ≈ p·Alt[a1, ..., an] for a single-result p.
+   The options stamped on Concatenate / Alternate nodes are irrelevant to the semantics, so they are
+   left arbitrary (the code gives the new nodes the options of the alternation or of the prefix). *)
+Theorem alt_prefix_factor o1 o2 o3 o4 o5 p bs : bs <> [] -> single_result p ->
+  rw_eq e (NAlternate o1 (map (fun a => NConcat o2 (p :: a)) bs))
+          (NConcat o3 [p; NAlternate o4 (map (NConcat o5) bs)]).
+Proof.
+  intros Hne Hsingle. split; intros s z Hz.
+  - apply evals_alt_map in Hz as (zs & HF & ->).
+    assert (Hp : exists lp, evals p s lp).
+    { destruct bs as [|b bs]; [contradiction|]. inversion HF as [|b' z0 bs' zs' H0 _]; subst.
+      apply evals_concat_cons in H0 as (lx & _ & Hx & _). eauto. }
+    destruct Hp as (lp & Hp). pose proof (Hsingle _ _ Hp) as Hlen.
+    destruct lp as [|s1 [|s2 lp]]; [| |cbn in Hlen; lia].
+    + assert (Hall : Forall (fun z => z = []) zs).
+      { clear -HF Hp. induction HF as [|b z0 bs zs H0 _ IH]; constructor; [|exact IH].
+        apply (evals_concat_after_none _ _ _ _ _ Hp) in H0. exact H0. }
+      rewrite (concat_all_nil' _ Hall). apply (evals_concat_after_none _ _ _ _ _ Hp). reflexivity.
+    + apply (evals_concat_after_single _ _ _ _ _ _ Hp). apply (proj2 (concat_singleton e _ _)). apply evals_alt_map.
+      exists zs. split; [|reflexivity]. eapply Forall2_impl'; [|exact HF]. intros b z0 H0. cbv beta in *.
+      apply (evals_concat_after_single _ _ _ _ _ _ Hp) in H0. eapply evals_concat_opts, H0.
+  - pose proof Hz as Hz0. apply evals_concat_cons in Hz0 as (lp & _ & Hp & _).
+    pose proof (Hsingle _ _ Hp) as Hlen. destruct lp as [|s1 [|s2 lp]]; [| |cbn in Hlen; lia].
+    + apply (evals_concat_after_none _ _ _ _ _ Hp) in Hz. subst z. apply evals_alt_map.
+      exists (map (fun _ => []) bs). split.
+      * clear -Hp. induction bs; constructor; [apply (evals_concat_after_none _ _ _ _ _ Hp); reflexivity | assumption].
+      * symmetry. apply concat_all_nil'. clear. induction bs; constructor; auto.
+    + apply (evals_concat_after_single _ _ _ _ _ _ Hp) in Hz. apply (proj1 (concat_singleton e _ _)) in Hz.
+      apply evals_alt_map in Hz as (zs & HF & ->). apply evals_alt_map. exists zs. split; [|reflexivity].
+      eapply Forall2_impl'; [|exact HF]. intros b z0 H0. cbv beta in *.
+      apply (evals_concat_after_single _ _ _ _ _ _ Hp). eapply evals_concat_opts, H0.
+Qed.
+
+(* the two-branch form *)
+Corollary alt_prefix_factor2 o p a b : single_result p ->
+  rw_eq e (NAlternate o [NConcat o (p :: a); NConcat o (p :: b)])
+          (NConcat o [p; NAlternate o [NConcat o a; NConcat o b]]).
+Proof. intros H. apply (alt_prefix_factor o o o o o p [a; b]); [discriminate | exact H]. Qed.
+
+(* inside a longer alternation: the run [bs] of branches sharing the prefix is replaced by one branch *)
+Lemma alt_group o o' pre mid post :
+  rw_eq e (NAlternate o (pre ++ mid ++ post)) (NAlternate o (pre ++ NAlternate o' mid :: post)).
+Proof.
+  split; apply alt_prefix_congr; intros s z Hz.
+  - apply evals_alt_all in Hz as (zs & HF & ->).
+    apply Forall2_app_inv_l in HF as (z1 & z2 & H1 & H2 & ->).
+    rewrite concat_app. apply evals_alt_cons. exists (concat z1), (concat z2).
+    split; [apply evals_alt_all; eauto|]. split; [apply evals_alt_all; eauto | reflexivity].
+  - apply evals_alt_cons in Hz as (l1 & l2 & H1 & H2 & ->).
+    apply evals_alt_all in H1 as (z1 & HF1 & ->). apply evals_alt_all in H2 as (z2 & HF2 & ->).
+    apply evals_alt_all. exists (z1 ++ z2). split; [apply Forall2_app; assumption | symmetry; apply concat_app].
+Qed.
+
+Theorem alt_prefix_factor_in o o2 o3 o4 o5 pre p bs post : bs <> [] -> single_result p ->
+  rw_eq e (NAlternate o (pre ++ map (fun a => NConcat o2 (p :: a)) bs ++ post))
+          (NAlternate o (pre ++ NConcat o3 [p; NAlternate o4 (map (NConcat o5) bs)] :: post)).
+Proof.
+  intros Hne Hs. eapply rw_eq_trans; [apply (alt_group o o)|].
+  destruct (alt_prefix_factor o o2 o3 o4 o5 p bs Hne Hs) as [H1 H2].
+  split; apply alt_prefix_congr; intros s z Hz; apply evals_alt_cons in Hz as (l1 & l2 & Hl1 & Hl2 & ->);
+    apply evals_alt_cons; exists l1, l2; auto.
+Qed.
+
+(* which prefixes are single-result: what the two extraction passes pull out *)
+Lemma single_result_leaf p :
+  (forall s r, leaf_result e p s = Some r -> (length r <= 1)%nat) ->
+  (forall s, leaf_result e p s <> None) -> single_result p.
+Proof.
+  intros H Hn s l Hl. destruct (leaf_result e p s) as [r|] eqn:E; [|destruct (Hn s E)].
+  apply (evals_leaf e _ _ _ _ E) in Hl. subst l. eapply H, E.
+Qed.
+
+Lemma single_result_char k o c : single_result (NChar k o c).
+Proof.
+  apply single_result_leaf; [|discriminate]. intros s r H. inversion H; subst.
+  destruct (_ && _); simpl; lia.
+Qed.
+
+Lemma single_result_multi o str : single_result (NMulti o str).
+Proof.
+  apply single_result_leaf; [|discriminate]. intros s r H. inversion H; subst. unfold sem_multi. cbv zeta.
+  destruct (_ <? _); [simpl; lia|]. destruct (str_match_at _ _ _ _); simpl; lia.
+Qed.
+
+Lemma single_result_charloop_atomic k o c m n : single_result (NCharLoop k LAtomic o c m n).
+Proof.
+  apply single_result_leaf; [|discriminate]. intros s r H. inversion H; subst. unfold sem_charloop. cbv zeta.
+  destruct (_ <? _); simpl; lia.
+Qed.
+
+(* a fixed-count loop {m,m} of any flavour (the code requires M == N, tree.go:1207-1211) *)
+Lemma single_result_charloop_fixed k l o c m : 0 <= m < INF -> single_result (NCharLoop k l o c m m).
+Proof.
+  intros Hm. apply single_result_leaf; [|discriminate]. intros s r H. inversion H; subst. clear H.
+  rewrite sem_charloop_unfold. cbv zeta. set (r := loop_run e k o c m s).
+  assert (Hr : r <= m).
+  { unfold r, loop_run. cbv zeta. assert (m =? INF = false) as -> by lia.
+    pose proof (run_len_bounds e k c o (Z.to_nat (Z.min m (avail e o (pos s)))) (pos s)). lia. }
+  destruct (r <? m) eqn:E; [simpl; lia|]. assert (r = m) as -> by lia.
+  destruct l; cbn [length map]; try lia.
+  - unfold count_down. assert (m <? m = false) as -> by lia. replace (Z.to_nat (m - m + 1)) with 1%nat by lia. simpl. lia.
+  - unfold count_up. assert (m <? m = false) as -> by lia. replace (Z.to_nat (m - m + 1)) with 1%nat by lia. simpl. lia.
+Qed.
+
+Lemma single_result_atomic t : single_result (NAtomic t).
+Proof. intros s l Hl. apply evals_atomic in Hl as (l0 & _ & ->). destruct l0; simpl; lia. Qed.
+
+(* splitting a literal (what processOneOrMulti leaves behind, tree.go:1295-1311); left-to-right *)
+Lemma str_match_app ci u v p :
+  str_match_at e ci (u ++ v) p = str_match_at e ci u p && str_match_at e ci v (p + zlen u).
+Proof.
+  revert p. induction u as [|c u IH]; intros p; cbn [app str_match_at].
+  - unfold zlen. simpl. replace (p + 0) with p by lia. reflexivity.
+  - rewrite IH. unfold zlen. cbn [length]. replace (p + 1 + Z.of_nat (length u)) with (p + Z.of_nat (S (length u))) by lia.
+    rewrite andb_assoc. reflexivity.
+Qed.
+
+Theorem multi_split o o' u v : is_rtl o = false ->
+  rw_eq e (NMulti o (u ++ v)) (NConcat o' [NMulti o u; NMulti o v]).
+Proof.
+  intros Ho.
+  assert (Hm : forall str s, sem_multi e o str s =
+            if tlen e - pos s <? zlen str then [] else
+            if str_match_at e (is_ci o) str (pos s) then [with_pos s (pos s + zlen str)] else []).
+  { intros str s. unfold sem_multi, avail, dir. cbv zeta. rewrite Ho.
+    replace (pos s + 1 * zlen str) with (pos s + zlen str) by lia. reflexivity. }
+  assert (Hlen : zlen (u ++ v) = zlen u + zlen v) by (unfold zlen; rewrite app_length; lia).
+  assert (Hu : 0 <= zlen u) by (unfold zlen; lia). assert (Hv : 0 <= zlen v) by (unfold zlen; lia).
+  assert (Hsem : forall s, evals (NConcat o' [NMulti o u; NMulti o v]) s (sem_multi e o (u ++ v) s)).
+  { intros s. apply evals_concat_cons. exists (sem_multi e o u s). rewrite !Hm, Hlen, str_match_app.
+    destruct (tlen e - pos s <? zlen u) eqn:E1.
+    - exists []. split; [leaf_intro; rewrite Hm, E1; reflexivity|].
+      split; [constructor|]. assert (tlen e - pos s <? zlen u + zlen v = true) as -> by lia. reflexivity.
+    - destruct (str_match_at e (is_ci o) u (pos s)) eqn:E2.
+      + eexists [_]. split; [leaf_intro; rewrite Hm, E1, E2; reflexivity|].
+        split; [constructor; [apply concat_singleton; leaf_intro; reflexivity | constructor]|].
+        cbn [concat]. rewrite app_nil_r, Hm. cbn [pos with_pos andb].
+        replace (tlen e - (pos s + zlen u) <? zlen v) with (tlen e - pos s <? zlen u + zlen v) by lia.
+        destruct (tlen e - pos s <? zlen u + zlen v); [reflexivity|].
+        destruct (str_match_at e (is_ci o) v (pos s + zlen u)); [|reflexivity].
+        unfold with_pos. cbn [pos caps]. rewrite Z.add_assoc. reflexivity.
+      + exists []. split; [leaf_intro; rewrite Hm, E1, E2; reflexivity|].
+        split; [constructor|]. cbn [andb concat]. destruct (tlen e - pos s <? zlen u + zlen v); reflexivity. }
+  split; intros s z Hz.
+  - leaf_inv Hz. subst z. apply Hsem.
+  - rewrite (rw_evals_det e _ _ _ _ Hz (Hsem s)). leaf_intro. reflexivity.
+Qed.
+
+(* a One and the one-rune Multi (case-sensitive, or a rune the lower-casing leaves alone) *)
+Theorem char_is_multi o c : ci_neutral e o c -> rw_eqs e (NChar COne o c) (NMulti o [c]).
+Proof.
+  intros Hci [|f] s; [reflexivity|]. rewrite !sem_S. cbn [sem_step]. f_equal. unfold sem_multi. cbv zeta.
+  change (zlen [c]) with 1. cbn [str_match_at]. rewrite andb_true_r.
+  replace (avail e o (pos s) <? 1) with (negb (0 <? avail e o (pos s))) by lia.
+  destruct (0 <? avail e o (pos s)); cbn [negb andb]; [|reflexivity].
+  assert (Hc : (c =? (if is_ci o then lower e (next_char e o (pos s)) else next_char e o (pos s))) =
+               char_test e COne c (next_char e o (pos s))).
+  { cbn [char_test]. destruct (is_ci o) eqn:E; [apply Hci, E | apply Z.eqb_sym]. }
+  unfold next_char, dir in *. destruct (is_rtl o); rewrite Hc; replace (pos s + 1 * 1) with (pos s + 1) by lia;
+    replace (pos s + -1 * 1) with (pos s + -1) by lia; reflexivity.
+Qed.
+
+End Prefix.
